@@ -115,7 +115,29 @@ def converter_reset_obligations(prop="C03"):
         r.witness = {"assignment": ast.unparse(st)}
         r.detail = "the shared converter is not reset before this entity's comment is converted"
         r.replay = c03.search_project_render()
-    return [r]
+    # ... and for every entity: the conversion is reached on every call (no `return` / `continue` / `raise` before it, not inside a conditional or a loop; a `try` is fine)
+    def _unconditional(body):
+        for b in body:
+            if b is st:
+                return True
+            if isinstance(b, ast.Try) and any(x is st for x in b.body):
+                # the statements of the try body in front of the conversion are subject to the same rule
+                return _unconditional(b.body)
+            if any(isinstance(n, (ast.Return, ast.Raise, ast.Continue, ast.Break)) for n in ast.walk(b)):
+                return False
+        return False
+    ok2 = _unconditional(fn.body)
+    src_ok = "self.doc_list" in ast.unparse(st.value)
+    r2 = OR(id=f"{prop}.S.FortranBase.markdown.every_entity_is_converted_from_its_comment", status=PROVED if (ok2 and src_ok) else REFUTED, kind="S", role="post", backend="ast",
+            target="ford.sourceform.FortranBase.markdown",
+            desc="the assignment to self.doc converts self.doc_list and is reached on every call: not guarded by a condition, no return before it (an entity whose `doc` was pre-set, "
+                 "e.g. the placeholder of an inherited component, is converted like any other)")
+    if not (ok2 and src_ok):
+        from bounded import c03
+        r2.witness = {"assignment": ast.unparse(st), "line": st.lineno}
+        r2.detail = "some entities keep whatever `doc` held before: their comment never reaches the rendered documentation"
+        r2.replay = c03.inherited_component_metadata() or c03.search_project_render()
+    return [r, r2]
 
 
 def common_doc_sharing(prop="C03", replay=None):
